@@ -682,9 +682,13 @@ Proof.
         + rewrite A, B, C, D. repeat split; reflexivity.
       - apply send_bye_nosess. intros cn0 H. congruence. }
     destruct P as [h1 outs1]. cbn [fst] in HP. destruct HP as (A & B & C & D). cbn [fst].
-    peel. peel. peel.
-    eapply rel_trans with h1; [now apply rel_nosess|].
-    apply rel_put with s; [unfold get_sess; now rewrite A|reflexivity].
+    match goal with |- Rel _ _ (fst (if _ then _ else (?hh, _))) => assert (R5 : Rel xs h hh) end.
+    { peel. peel. peel.
+      eapply rel_trans with h1; [now apply rel_nosess|].
+      apply rel_put with s; [unfold get_sess; now rewrite A|reflexivity]. }
+    destruct (queue_closes s); [|exact R5].
+    match goal with |- context [close_conn ?hh c] => destruct (close_conn hh c) as [h6 o6] eqn:H6 end. cbn [fst].
+    rewrite (fst_eq _ _ _ H6). eapply rel_trans; [exact R5|apply rel_close_conn].
 Qed.
 
 (* ------------------------------------------------------------------ joining *)
@@ -1267,7 +1271,7 @@ Lemma inv_do_media h c sid s to mk stream media :
 Proof.
   intros I Hs. unfold do_media. destruct to as [i|u| |]; try exact I.
   destruct (N.eqb mk 0).
-  - destruct (negb (offer_allowed (s_perms s) stream media)) eqn:Hoff; [exact I|]. apply negb_false_iff in Hoff.
+  - destruct (negb (offer_allowed (s_perms s) stream _)) eqn:Hoff; [exact I|]. apply negb_false_iff in Hoff.
     destruct (aget (s_pubs s) stream) as [tok|] eqn:Hslot; [|now apply inv_start_create].
     apply inv_send_session. apply inv_put_same with s; auto.
     intros Hv st t Hin. cbn [s_pubs s_pubmedia s_perms s_kind sess_media] in *. rewrite media_of_aset.
@@ -1800,6 +1804,6 @@ Qed.
 
 (* a publisher is created only with the permission: an offer the permissions do not allow is refused *)
 Theorem offer_needs_permission h c sid s i stream media :
-  offer_allowed s.(s_perms) stream media = false ->
+  offer_allowed s.(s_perms) stream (eff_media media) = false ->
   do_media h c sid s (RSession i) 0 stream media = (h, [ToConn c (SError E_not_allowed)]).
 Proof. intros Hoff. unfold do_media. cbn [N.eqb]. now rewrite Hoff. Qed.
